@@ -39,6 +39,9 @@ def tasks(tier, seed):
     ts.append(Task('encode.spellings', MOD, 'task_spellings', (), fuc=FUC_ENC))
     ts.append(Task('encode_sequence.arguments', MOD, 'task_sequence_args', (), backend='ground',
                    fuc=['segno.encoder.encode_sequence', 'segno.encoder.calc_structured_append_parity']))
+    for first in COLOUR_ALPHABET + ('',):
+        ts.append(Task('colour_strings[%r]' % first, MOD, 'task_colour_strings', (first,), backend='ground', fuc=['segno.writers._color_to_rgba', 'segno.writers._hex_to_rgb_or_rgba'], weight=8))
+    ts.append(Task('colour_tuples', 'contracts.c10', 'task_colour_tuples', ('C14',), fuc=['segno.writers._color_to_rgba']))
     for k in range(4):
         ts.append(Task('bounded.serialiser_arguments[%d]' % k, MOD, 'task_bounded_serialisers', (k,), backend='bounded',
                        fuc=['segno.writers._color_to_rgba', 'segno.writers._hex_to_rgb_or_rgba', 'segno.writers._alpha_value',
@@ -228,9 +231,51 @@ def task_sequence_args(I):
 
 
 # ------------------------------------------------------------------ bounded: serialiser arguments
-BAD_COLOURS = ['', '#', '#1', '#12', '#12345', '#1234567', '#123456789', '#ggg', 'notacolour', 'rgb(1,2,3)', (1, 2), (1, 2, 3, 4, 5), (256, 0, 0), (-1, 0, 0),
+BAD_COLOURS = ['', '#', '#1', '#12', '#12345', '#1234567', '#123456789', '#ggg', 'notacolour', 'rgb(1,2,3)', '#-1-2-3', '#+1+2+3', '# 1 2 3', '+1+2+3', '\u0661\u0662\u0663',
+               (1, 2), (1, 2, 3, 4, 5), (256, 0, 0), (-1, 0, 0),
                (0, 0, 0, 256), (0, 0, 0, -1), (0, 0, 0, 1.5), ()]
 GOOD_COLOURS = ['black', 'White', '#000', '#fff0', '#FF0000', '#ff000080', (0, 0, 0), (1, 2, 3, 0.5), (1, 2, 3, 128), 'darkblue']
+
+
+COLOUR_ALPHABET = ('0', '9', 'f', 'F', 'g', '-', '+', ' ', '_', '\u0661', 'x')
+
+
+def task_colour_strings(I, first):
+    """exhaustive over all strings  ['#'] c1 .. cn  (n <= 6, ci from an alphabet of hex digits, a non hex letter, signs, blank, underscore, a non ASCII
+    digit, 'x') that start with `first`: the colour parser accepts exactly the hexadecimal forms RGB / RGBA / RRGGBB with their channel values and raises
+    ValueError - nothing else - on everything else (int(text, 16) would accept signs, blanks and non ASCII digits)"""
+    import itertools
+    import segno.writers as W
+    hexd = '0123456789abcdefABCDEF'
+    n_ok = n_bad = 0
+    wrong = []
+    bodies = [''] if first == '' else [first + ''.join(t) for n in range(0, 6) for t in itertools.product(COLOUR_ALPHABET, repeat=n)]
+    for body in bodies:
+        for spell in (body, '#' + body):
+            valid = len(body) in (3, 4, 6, 8) and all(c in hexd for c in body)
+            try:
+                got = W._color_to_rgba(spell, alpha_float=False)
+            except ValueError:
+                if valid:
+                    wrong.append((spell, 'refused'))
+                n_bad += 1
+                continue
+            except Exception as ex:
+                wrong.append((spell, repr(ex)))
+                continue
+            n_ok += 1
+            if not valid:
+                wrong.append((spell, 'accepted as %r' % (got,)))
+            else:
+                b = body if len(body) > 4 else ''.join(c * 2 for c in body)
+                want = tuple(int(b[i:i + 2], 16) for i in range(0, len(b), 2))
+                if len(want) == 3:
+                    want += (255,)
+                if tuple(got) != want:
+                    wrong.append((spell, 'gives %r' % (got,)))
+    I.ground('C14.colour_string.accepted_iff_hexadecimal_RGB_RGBA_RRGGBB_else_ValueError', not wrong, witness=dict(first=first, wrong=wrong[:4], checked=2 * len(bodies)),
+             replay=dict(fn='replay_colour_string', spell=wrong[0][0] if wrong else '#000'))
+    I.ground_pass('C14.colour_string.cover.strings_checked', n_ok + n_bad)
 
 
 def task_bounded_serialisers(I, k):
